@@ -15,6 +15,7 @@ import (
 	"github.com/nspcc-dev/neo-go/pkg/core/block"
 	"github.com/nspcc-dev/neo-go/pkg/core/native/nativehashes"
 	"github.com/nspcc-dev/neo-go/pkg/core/native/nativeids"
+	"github.com/nspcc-dev/neo-go/pkg/core/native/noderoles"
 	"github.com/nspcc-dev/neo-go/pkg/core/state"
 	"github.com/nspcc-dev/neo-go/pkg/core/storage"
 	"github.com/nspcc-dev/neo-go/pkg/core/transaction"
@@ -127,11 +128,11 @@ type Deployed struct {
 
 // Weights of operation kinds (see Producer.Step).
 type Weights struct {
-	GasTransfer, NeoTransfer, Vote, Candidate, Policy, Block, Role, Deploy, Run, Update, Destroy, Notary, Fault, Payment int
+	GasTransfer, NeoTransfer, Vote, Candidate, Policy, Block, Role, Deploy, Run, Update, Destroy, Notary, Fault, Payment, NotaryAssisted int
 }
 
 // DefaultWeights is a balanced mix.
-var DefaultWeights = Weights{GasTransfer: 10, NeoTransfer: 8, Vote: 10, Candidate: 4, Policy: 5, Block: 3, Role: 2, Deploy: 3, Run: 14, Update: 2, Destroy: 1, Notary: 4, Fault: 5, Payment: 5}
+var DefaultWeights = Weights{GasTransfer: 10, NeoTransfer: 8, Vote: 10, Candidate: 4, Policy: 5, Block: 3, Role: 2, Deploy: 3, Run: 14, Update: 2, Destroy: 1, Notary: 4, Fault: 5, Payment: 5, NotaryAssisted: 3}
 
 // ProducerConfig configures a history producer.
 type ProducerConfig struct {
@@ -166,6 +167,8 @@ type Producer struct {
 	KindLog                                 [][]string // per block: kind/result of each tx
 	OnBlock                                 func(p *Producer, b *block.Block)
 	Rejected                                error
+	lastPayer                               *User
+	spent                                   map[int]int64
 	TolerateReject                          bool
 	nonce                                   uint32
 	closeOnce                               sync.Once
@@ -416,8 +419,9 @@ func (p *Producer) Plan(maxSteps int, allowFail bool) []any {
 // GenTxs produces the transactions of the next block (possibly none).
 func (p *Producer) GenTxs() []*transaction.Transaction {
 	r := p.R
+	p.spent = map[int]int64{}
 	w := p.Cfg.W
-	ws := []int{w.GasTransfer, w.NeoTransfer, w.Vote, w.Candidate, w.Policy, w.Block, w.Role, w.Deploy, w.Run, w.Update, w.Destroy, w.Notary, w.Fault, w.Payment}
+	ws := []int{w.GasTransfer, w.NeoTransfer, w.Vote, w.Candidate, w.Policy, w.Block, w.Role, w.Deploy, w.Run, w.Update, w.Destroy, w.Notary, w.Fault, w.Payment, w.NotaryAssisted}
 	n := r.Intn(p.Cfg.MaxTx + 1)
 	var txs []*transaction.Transaction
 	policyUsed := false
@@ -461,6 +465,8 @@ func (p *Producer) GenTxs() []*transaction.Transaction {
 			tx = p.opFault()
 		case 13:
 			tx = p.opPayment()
+		case 14:
+			tx = p.opNotaryAssisted()
 		}
 		if tx != nil {
 			txs = append(txs, tx)
@@ -704,7 +710,11 @@ func (p *Producer) opRole() *transaction.Transaction {
 		ks = append(ks, DetKey("role", p.R.Intn(6)).PublicKey().Bytes())
 	}
 	// duplicates make the call fail: that is part of the mix.
-	return p.Call("designate-role", p.committee(), p.RoleH, "designateAsRole", roles[p.R.Intn(len(roles))], ks)
+	role := roles[p.R.Intn(len(roles))]
+	if p.R.Intn(3) == 0 {
+		role = 32 // P2PNotary: needed by notary-assisted transactions
+	}
+	return p.Call("designate-role", p.committee(), p.RoleH, "designateAsRole", role, ks)
 }
 
 func (p *Producer) opDeploy() *transaction.Transaction {
@@ -788,6 +798,76 @@ func (p *Producer) opNotary() *transaction.Transaction {
 	default:
 		return p.Call("notary-withdraw", []neotest.Signer{u.S}, p.NotaryH, "withdraw", u.Hash(), u.Hash())
 	}
+}
+
+// NotaryNodeKey is a key the harness designates as a P2PNotary node.
+func NotaryNodeKey() *keys.PrivateKey { return DetKey("role", 0) }
+
+// opNotaryAssisted builds a transaction sent by the Notary contract and paid
+// from the deposit of a user (as the notary service does for completed
+// requests): signers [Notary (None), user], NotaryAssisted attribute, the
+// Notary witness signed by a designated notary node whose key the harness has.
+func (p *Producer) opNotaryAssisted() *transaction.Transaction {
+	nodes, _, err := p.BC.GetDesignatedByRole(noderoles.P2PNotary)
+	if err != nil || len(nodes) == 0 {
+		return nil
+	}
+	var node *keys.PrivateKey
+	for i := 0; i < 6 && node == nil; i++ {
+		k := DetKey("role", i)
+		for _, n := range nodes {
+			if n.Equal(k.PublicKey()) {
+				node = k
+			}
+		}
+	}
+	if node == nil {
+		return nil
+	}
+	// payers with a deposit; the same payer is chosen again with high probability
+	var payers []*User
+	for _, u := range p.Users {
+		if !u.Blocked && p.BC.GetUtilityTokenBalance(p.NotaryH, u.Hash()).Cmp(big.NewInt(1_0000_0000)) > 0 {
+			payers = append(payers, u)
+		}
+	}
+	if len(payers) == 0 {
+		return nil
+	}
+	u := payers[p.R.Intn(len(payers))]
+	if p.lastPayer != nil && !p.lastPayer.Blocked && p.R.Intn(2) == 0 {
+		for _, c := range payers {
+			if c == p.lastPayer {
+				u = c
+			}
+		}
+	}
+	p.lastPayer = u
+	nKeys := 1 + p.R.Intn(3)
+	script := []byte{byte(opcode.PUSH1)}
+	if len(p.Live) > 0 && p.R.Intn(2) == 0 {
+		script, _ = smartcontract.CreateCallScript(p.Live[p.R.Intn(len(p.Live))].Hash, "run", p.Plan(2, true))
+	}
+	tx := transaction.New(script, int64(1000_0000+p.R.Intn(3000_0000)))
+	p.nonce++
+	tx.Nonce = p.nonce
+	tx.ValidUntilBlock = p.BC.BlockHeight() + 1
+	tx.Attributes = []transaction.Attribute{{Type: transaction.NotaryAssistedT, Value: &transaction.NotaryAssisted{NKeys: uint8(nKeys)}}}
+	tx.Signers = []transaction.Signer{{Account: p.NotaryH, Scopes: transaction.None}, {Account: u.Hash(), Scopes: transaction.None}}
+	neotest.AddNetworkFee(p.T, p.BC, tx, u.S)
+	// room for the Notary witness (size and verification through the native contract)
+	tx.NetworkFee += 100*p.BC.FeePerByte() + 1000_0000
+	magic := p.BC.GetConfig().Magic
+	tx.Scripts = []transaction.Witness{
+		{InvocationScript: append([]byte{byte(opcode.PUSHDATA1), keys.SignatureLen}, node.SignHashable(uint32(magic), tx)...)},
+		{InvocationScript: append([]byte{byte(opcode.PUSHDATA1), keys.SignatureLen}, u.Acc.PrivateKey().SignHashable(uint32(magic), tx)...), VerificationScript: u.Acc.Contract.Script},
+	}
+	if dep := p.BC.GetUtilityTokenBalance(p.NotaryH, u.Hash()); dep.Cmp(big.NewInt(tx.SystemFee+tx.NetworkFee+p.spent[u.Idx])) < 0 {
+		return nil
+	}
+	p.spent[u.Idx] += tx.SystemFee + tx.NetworkFee
+	p.TxKinds[tx.Hash()] = "notary-assisted"
+	return tx
 }
 
 func (p *Producer) opFault() *transaction.Transaction {
